@@ -104,7 +104,8 @@ def run(ctx):
     n_sites = 0
     for q in scope:
         n_sites += check_panics(ctx, P.B(q), 'C20.2-shape-before-access', kinds=('bounds', 'index', 'slice', 'map-index'), key_prefix='PANIC')
-    ctx.anchor(n_sites >= 1, 'positional accesses in from_term conversions')
+    # (how many positional accesses there are is a matter of style - `t[1]` behind a length test or a slice pattern; the scan of the scope is the instance)
+    ctx.anchor(len(scope) >= 6, 'from_term conversions and their helpers (at least six bodies examined for positional accesses)')
     for name, path in WRAPPERS.items():
         ty = CR + path
         if P.B(ty + '::try_new') is None:
